@@ -44,7 +44,10 @@ def digest_result(res, ins):
         return A._h("|".join(digest_result(x, []) for _r, x, _m in ins).encode())
     if isinstance(res, xr.DataArray):
         v = np.asarray(comp(res.data))
-        parts = [A.exact_digest(v), str(res.dtype), str(res.dims), str(res.name), json.dumps(A.attrs_pairs(res))]
+        name = str(res.name)
+        if getattr(res.data, "name", None) == res.name and res.name is not None:
+            name = "<dask key>"        # xarray adopts the dask graph key as name when the function sets none; not raster content
+        parts = [A.exact_digest(v), str(res.dtype), str(res.dims), name, json.dumps(A.attrs_pairs(res))]
         for k in sorted(map(str, res.coords)):
             c = res.coords[k]
             parts.append(k + str(c.dims) + A.exact_digest(np.asarray(c.values)))
@@ -144,7 +147,9 @@ def run_history(h):
         p = entry["variants"][c.get("variant", 0)]
         ev = {"c": c["c"], "f": c["f"], "raised": False, "err": "", "digest": ""}
         try:
-            ins = A.build_inputs(entry, c.get("dtype", "float64"), c.get("layout", "C"), c.get("backend", "numpy"), c.get("seed", 0))
+            hw = c.get("hw") or [A.H, A.W]
+            ins = A.build_inputs(entry, c.get("dtype", "float64"), c.get("layout", "C"), c.get("backend", "numpy"), c.get("seed", 0),
+                                 h=hw[0], w=hw[1])
             fn = getattr(MODS[entry["mod"]], entry["attr"])
             args, kwargs = entry["kw"](p, [x for _r, x, _m in ins])
             with warnings.catch_warnings():
